@@ -82,22 +82,13 @@ Print Assumptions static_provision_grant.
 
 (* ---------------------------------------------------------------- resource limits *)
 
-(* The property at full strength — every limited resource, every launch choice — is FALSE on the
-   code as it is: FINDING (limits.nodes of a dynamic pool is never lowered inside a pass). *)
+(* The property at full strength — every limited resource, every launch choice, no guard on the
+   catalog — is FALSE on the code as it is: known finding F12 (offering CapacityOverride). *)
 Theorem pass_within_limits_refuted : ~ pass_within_limits_stmt.
 Proof. exact pass_within_limits_refuted_l. Qed.
 Print Assumptions pass_within_limits_refuted.
 
-(* witness 1: limits.nodes = 2, three NodeClaims in one pass *)
-Theorem pass_within_limits_nodes_refuted :
-  exists r', run_pass (remaining0 w_nodes_limits []) w_nodes_claims = Some r' /\
-    launches w_nodes_claims w_nodes_launched /\
-    (forall opts it, In opts w_nodes_claims -> In it opts -> it_nonneg it) /\
-    within_b w_nodes_limits [] w_nodes_launched = false.
-Proof. exact pass_nodes_refuted_l. Qed.
-Print Assumptions pass_within_limits_nodes_refuted.
-
-(* witness 2: limits.cpu = 8, base capacity 4, an available offering with CapacityOverride cpu = 16 *)
+(* the witness: limits.cpu = 8, base capacity 4, an available offering with CapacityOverride cpu = 16 *)
 Theorem pass_within_limits_override_refuted :
   exists r', run_pass (remaining0 w_ov_limits []) [[w_ov_it]] = Some r' /\
     launches [[w_ov_it]] w_ov_launched /\
@@ -106,30 +97,32 @@ Theorem pass_within_limits_override_refuted :
 Proof. exact pass_override_refuted_l. Qed.
 Print Assumptions pass_within_limits_override_refuted.
 
-(* Under the two guards — the resource is not "nodes"; no offering raises a resource above the base
-   capacity — one pass keeps usage within the limit (or where it was) for ANY number of NodeClaims, ANY
-   option sets that survive the filter and ANY launch choice. *)
+(* F11 (fixed in /repo by 1e4ed4d16): with the former subtractMax a pool with limits.nodes = 2 admitted
+   three NodeClaims in one pass and exceeded the limit; the present function refuses the third. *)
+Theorem pass_within_limits_nodes_prefix_refuted :
+  (exists r', run_pass_prefix (remaining0 w_nodes_limits []) w_nodes_claims = Some r') /\
+  launches w_nodes_claims w_nodes_launched /\
+  within_b w_nodes_limits [] w_nodes_launched = false /\
+  run_pass (remaining0 w_nodes_limits []) w_nodes_claims = None.
+Proof. exact pass_nodes_prefix_refuted_l. Qed.
+Print Assumptions pass_within_limits_nodes_prefix_refuted.
+
+(* For EVERY limited resource, "nodes" included: one pass keeps usage within the limit (or where it
+   was) for ANY number of NodeClaims, ANY option sets that survive the filter and ANY launch choice.
+   Guards ([claims_ok]): capacities are non-negative, no offering raises a resource above the base
+   capacity (F12), instance types report no "nodes" capacity; and the node headroom is a whole number. *)
 Theorem pass_within_limits_partial : forall limits existing claims r' launched k,
   run_pass (remaining0 limits existing) claims = Some r' ->
   launches claims launched -> claims_ok claims ->
-  String.eqb k nodes = false -> has k limits = true ->
+  has k limits = true -> whole k (get k limits - sum_get k existing) ->
   sum_get k existing + sum_get k (map node_cap launched) <= Z.max (get k limits) (sum_get k existing).
 Proof. exact pass_within_limits_partial_l. Qed.
 Print Assumptions pass_within_limits_partial.
 
-(* The node limit does hold for a pass that creates a single NodeClaim (whole-node headroom). *)
-Theorem pass_nodes_single_partial : forall limits existing opts r' c,
-  run_pass (remaining0 limits existing) [opts] = Some r' ->
-  has nodes limits = true ->
-  (forall it, In it opts -> nonneg (base it)) ->
-  (exists n, get nodes limits - sum_get nodes existing = n * one_node) ->
-  sum_get nodes existing + sum_get nodes (map node_cap [c]) <= Z.max (get nodes limits) (sum_get nodes existing).
-Proof. exact pass_nodes_single_l. Qed.
-Print Assumptions pass_nodes_single_partial.
-
-(* However many synced rounds it takes, with nodes disappearing in between. *)
+(* However many synced rounds it takes, with nodes disappearing in between; for "nodes" every node
+   counts as one node and the limit is a whole number. *)
 Theorem rounds_within_limits_partial : forall limits ex ex' k,
-  rounds limits ex ex' -> String.eqb k nodes = false -> has k limits = true ->
+  rounds limits ex ex' -> has k limits = true -> whole_nodes k limits ex ->
   sum_get k ex <= get k limits -> sum_get k ex' <= get k limits.
 Proof. exact rounds_within_limits_partial_l. Qed.
 Print Assumptions rounds_within_limits_partial.
@@ -176,6 +169,12 @@ Example static_example :
   api_count s 1%nat = 1 /\ granted_count s 1%nat = 1 /\ counts (nps s) 1%nat = (0, 0, 1) /\ reserved (nps s) 1%nat = 1.
 Proof. vm_compute. repeat split. Qed.
 
+(* the node limit inside one pass: limits.nodes = 2 admits two NodeClaims and refuses a third *)
+Example nodes_example :
+  run_pass (remaining0 [("nodes", 2000)] []) [[mkIT [("cpu", 2000)] [[]]]; [mkIT [("cpu", 2000)] [[]]]] = Some [("nodes", 0)] /\
+  run_pass (remaining0 [("nodes", 2000)] []) [[mkIT [("cpu", 2000)] [[]]]; [mkIT [("cpu", 2000)] [[]]]; [mkIT [("cpu", 2000)] [[]]]] = None.
+Proof. vm_compute. split; reflexivity. Qed.
+
 Example rounds_example :
   rounds [("cpu", 8000)] [] [node_cap [("cpu", 4000)]; node_cap [("cpu", 4000)]].
 Proof.
@@ -183,11 +182,11 @@ Proof.
   - vm_compute. reflexivity.
   - simpl. tauto.
   - intros opts it [Ho|[]] Hi; subst opts. destruct Hi as [Hi|[]]; subst it. split; [apply nonneg_cpu; lia|].
-    intros k. constructor; [simpl; lia | constructor].
+    split; [|reflexivity]. intros k. constructor; [simpl; lia | constructor].
   - eapply r_pass with (claims := [[mkIT [("cpu", 4000)] [[]]]]) (launched := [[("cpu", 4000)]]).
     + vm_compute. reflexivity.
     + simpl. tauto.
     + intros opts it [Ho|[]] Hi; subst opts. destruct Hi as [Hi|[]]; subst it. split; [apply nonneg_cpu; lia|].
-      intros k. constructor; [simpl; lia | constructor].
+      split; [|reflexivity]. intros k. constructor; [simpl; lia | constructor].
     + apply r_done.
 Qed.
